@@ -46,6 +46,7 @@ Options == <<
   Opt("std", "training", "val_size", <<"n:0.1", "n:0.0", "n:0.5">>),
   Opt("std", "training", "use_dataloader", <<"b:F", "b:T">>),
   Opt("std", "training", "clip_grad_norm", <<"n:5.0", "none">>),
+  Opt("std", "training", "batch_size", <<"none", "n:11">>),
   Opt("std", "sampler", "latent_prior", <<"s:truncated_gaussian", "s:gaussian", "s:uniform", "s:uniform_nsphere",
                                            "s:uniform_nball", "s:flow", "s:bogus">>),
   Opt("std", "sampler", "constant_volume_mode", <<"b:T", "b:F">>),
@@ -108,6 +109,8 @@ SameSampler(i, j) == Options[i].sampler = Options[j].sampler
 Idx(s, n) == CHOOSE k \in 1..NOpt : Options[k].sampler = s /\ Options[k].name = n
 Companions ==
     {{<<Idx("std", "latent_prior"), a>>, <<Idx("std", "constant_volume_mode"), 2>>} : a \in 2..6}
+    \* an interacting pair: a batch size that leaves a last training batch of one sample, with batch norm
+    \cup {{<<Idx("std", "batch_size"), 2>>, <<Idx("std", "batch_norm_between_layers"), 2>>}}
 
 Init ==
     \/ cfg = {}
